@@ -522,7 +522,7 @@ func main() {
 	f := gallina.ParseFlags()
 	meta := gallina.NewMeta("C10", f.Seed, f.Tier)
 	meta.Rule = "corpus + seeded sequences per encoding (XOR, XOR2): timestamps increasing with delta-of-delta drawn from the bucket edges (13/14/17/20/64 bit, +-1), huge, arbitrary int64 and non-monotonic; values constant/counter/gauge/random bits/chosen xor windows/stale-NaN mixes/specials; start timestamps none/constant/late/jitter/edges/arbitrary/resets; appender re-obtained at random cuts (same object or from bytes); Next/Seek script. non-trivial = at least 3 samples and at least one non-zero delta-of-delta or value change; distinct by (encoding, samples, cuts, script)"
-	cf := &gallina.CaseFile{Dir: f.Out, Type: "case", PerShard: f.Count(31, 400),
+	cf := &gallina.CaseFile{Dir: f.Out, Type: "case", PerShard: f.Count(31, 160),
 		Preamble: "From Coq Require Import List ZArith Uint63.\nFrom Verif Require Import lib.Int64 lib.Bits model.Xor corr.CorrC10.\nImport ListNotations.\nOpen Scope uint63_scope.\n",
 		Footer:   gallina.StdFooter}
 	id := 0
@@ -680,7 +680,7 @@ func main() {
 	}
 
 	// ---- seeded random histories
-	n := f.Count(200, 6000)
+	n := f.Count(200, 1200)
 	for i := 0; i < n; i++ {
 		r := gen.Fork(f.Seed, i)
 		enc := encs[i%len(encs)]
